@@ -71,6 +71,21 @@ STEP_SHIM = (
 )
 
 
+def publicise(path):
+    """Harness fns and their (macro-generated) modules become pub(crate) so that the replay module
+    appended to the harness file can name them."""
+    if os.path.isdir(path):
+        for d, _, fs in os.walk(path):
+            for f in fs:
+                if f.endswith(".rs"):
+                    publicise(os.path.join(d, f))
+        return
+    s = open(path).read()
+    s = re.sub(r"^(\s*)fn (c\d\d\w*)\(\)", r"\1pub(crate) fn \2()", s, flags=re.M)
+    s = re.sub(r"^(\s*)mod (\$?\w+) \{", r"\1pub(crate) mod \2 {", s, flags=re.M)
+    open(path, "w").write(s)
+
+
 def apply(ov, lift_asm=True, log=None):
     """Apply O1..O4 to the copy at `ov`. Returns a dict describing what was done."""
     info = {"o1_modules": [], "o2_files": [], "o3_impls": [], "o4": False}
@@ -142,11 +157,13 @@ def apply(ov, lift_asm=True, log=None):
             dst = os.path.join(dst_dir, e)
             if os.path.isdir(src):
                 shutil.copytree(src, dst)
+                publicise(dst)
                 mod = e
             else:
                 if not e.endswith(".rs"):
                     continue
                 shutil.copy(src, dst)
+                publicise(dst)
                 mod = e[:-3]
             owner = owner_module_file(ov, "" if reldir == "." else reldir)
             decls.setdefault(owner, []).append(mod)
